@@ -277,6 +277,55 @@ def powi_big_cases(rng, tier, n):
             k = -k
         yield ("f.powi", [fenc(B, s, e, p, m), hx(k)])
 
+def large_argument_cases(rng, tier):
+    """exp / exp_m1 / powf whose argument reduction count is large: |x| from 1e3 to 1e12 (exp_m1 to 1e5) in
+    every base at several precisions — the digits of floor(x / ln B) must be covered by the working precision
+    and by the precision of the constant ln B"""
+    precs = [3, 10, 53, 100] if tier == "quick" else [2, 3, 10, 24, 53, 100, 200]
+    reps = 1 if tier == "quick" else 4
+    for B in BASES:
+        for mexp in range(3, 13):
+            for p in precs:
+                for _ in range(reps):
+                    m = rng.choice(MODES)
+                    mag = 10.0 ** mexp * rng.uniform(1.0, 9.99)
+                    top = int(math.log(mag) / math.log(B)) + 1
+                    s, e = float_with_top(rng, B, p, top, rng.choice([1, 2, p, p]))
+                    if rng.random() < 0.5:
+                        s = -s
+                    yield ("f.exp", [fenc(B, s, e, p, m)])
+                    if mexp <= 5 and Fraction(s) * Fraction(B) ** e <= 10 ** 6:
+                        yield ("f.exp_m1", [fenc(B, s, e, p, m)])
+        for p in precs:
+            for mexp in (3, 5, 7, 9, 11):
+                m = rng.choice(MODES)
+                # x^y with y*ln x of the given magnitude: x in (1/B, B), |y| large
+                s, e = float_with_top(rng, B, p, rng.choice([0, 1]))
+                if (s, e) == (1, 0):
+                    s, e = B + 1, 0 if p > 1 else 0
+                top = int(math.log(10.0 ** mexp) / math.log(B)) + 1
+                t, f = float_with_top(rng, B, p, top, rng.choice([1, 2, p]))
+                if ndigits(B, s) > p:
+                    continue
+                yield ("f.powf", [fenc(B, s, e, p, m), fenc(B, t if rng.random() < 0.5 else -t, f, p, m)])
+
+def sparse_power_cases(rng, tier):
+    """powi of a sparse base 1 + B^-k (also the integer B^k + 1) to the powers 2, 3 (and -2) at a precision
+    between k and 2k+1: the exact power has 2k+1 (3k+1) digits, so below that the result must be flagged
+    Inexact, from 2k+1 (3k+1) digits on it is exact and may be flagged Exact"""
+    ks = [1, 2, 3, 6, 13, 20, 39] if tier == "quick" else list(range(1, 45))
+    for B in BASES:
+        for k in ks:
+            ps = sorted({k + 1, k + 2, (3 * k) // 2 + 1, 2 * k, 2 * k + 1, 2 * k + 2, 3 * k, 3 * k + 1})
+            for p in ps:
+                if p < k + 1:
+                    continue
+                m = rng.choice(MODES)
+                for n in (2, 3, -2):
+                    for (s, e) in ((B ** k + 1, -k), (B ** k + 1, 0), (B ** k - 1, -k)):
+                        if rng.random() < (0.5 if tier == "quick" else 1.0):
+                            yield ("f.powi", [fenc(B, s if rng.random() < 0.8 else -s, e, p, m), hx(n)])
+
 def powf_cases(rng, tier, n):
     for _ in range(n):
         B, p, m = cfg(rng, tier, 1000)
@@ -415,6 +464,8 @@ def raw_cases(rng, tier):
     sc = float(os.environ.get("C11_SCALE", "1"))
     yield from unary_cases(rng, tier, 1300 if q else int(16000 * sc))
     yield from powi_cases(rng, tier, 350 if q else int(4000 * sc))
+    yield from large_argument_cases(rng, tier)
+    yield from sparse_power_cases(rng, tier)
     yield from powi_big_cases(rng, tier, 60 if q else int(600 * sc))
     yield from powf_cases(rng, tier, 350 if q else int(4000 * sc))
     yield from adversarial_cases(rng, tier, 250 if q else int(4000 * sc))
@@ -622,7 +673,13 @@ def kf(cls, op, args, impl, model):
         op = op[4:]
     viol = model.startswith("violation ")
     if cls == "exact-flag":
-        # the value is certified within one ulp; only the flag is wrong
+        # the value is certified within one ulp; only the flag is wrong.  For powi only the negative-exponent
+        # branch is affected (it discards the flag of the positive power); the binary powering loop itself
+        # tracks inexactness and is NOT covered by this class.
+        if op.endswith(".powi"):
+            pre = args[:args.index("|")] if "|" in args else args
+            if not pre[1].startswith("-"):
+                return False
         return viol and "Exact-flag-on-inexact-result value-within-1ulp" in model and impl.endswith(" Exact")
     req = model.startswith("required a-value-within-1ulp") and "log.rs:" in impl and "subtract_with_overflow" in impl
     if not (viol and "result-not-within-1ulp" in model or "result-exactly-1ulp" in model or req):
@@ -631,13 +688,12 @@ def kf(cls, op, args, impl, model):
         # a long operand just above the edge of the domain is rounded onto the edge before the computation
         return cls == "operand-longer-than-context" and any(
             a.startswith("d:") for a in args[:args.index("|")] if "|" in args)
-    large = k_large_argument(op, args) or k_high_precision_powering(op, args)
+    # (the classes `large-argument` and `high-precision-powering` were repaired by fix commit 0b61a28: a large
+    #  argument is no excuse any more; k_large_argument / k_high_precision_powering are kept as documentation of
+    #  the repaired input classes)
+    large = False
     longer = k_operand_longer_than_context(op, args)
     tiny = "error=1ulp+tiny" in model or "result-exactly-1ulp" in model
-    if cls == "large-argument":
-        return k_large_argument(op, args)
-    if cls == "high-precision-powering":
-        return k_high_precision_powering(op, args) and not k_large_argument(op, args)
     if cls == "operand-longer-than-context":
         return longer and not large
     if cls == "directed-one-ulp":
@@ -739,4 +795,4 @@ LEVEL_NOTE = ("Trusted: Lean kernel; axioms propext/Classical.choice/Quot.sound;
               "exp_internal/ln_internal are not modelled - a result is only ever accepted through the certificate theorem.")
 TECHNIQUE = ("Lean 4 + Mathlib analysis (Real.exp_bound', hasSum_log_sub_log_of_abs_lt_one): verified interval enclosures; "
              "a-posteriori certification of the implementation's results; differential run of the guard model")
-READY = True
+READY = False  # orchestrator: pending driver fix (INTERNAL bad-op on seed 1)
